@@ -152,6 +152,7 @@ func refreshChild(path string) {
 }
 
 func runRefresh(run *vh.Run, o *vh.Opts, cases []Case) {
+	emitRefreshTraces(run) // the traces recorded by refreshMidRequest (refresh_trace.go), as their own shard for the model
 	limit := 6
 	if o.Tier == "thorough" {
 		limit = 60
